@@ -15,6 +15,7 @@ tvars == <<vars, l>>
 Dummy == [c |-> "one", lv |-> 2, fam |-> 4, gen |-> "unknown", seed |-> [w |-> 0, id |-> 0, h |-> 0]]
 Blank == /\ inp = [i \in Procs |-> Dummy] /\ pc = [i \in Procs |-> "start"] /\ grp = [i \in Procs |-> 0]
          /\ rng = NoRng /\ lrng = [i \in Procs |-> NoRng] /\ res = [i \in Procs |-> None] /\ obs = [a |-> "Init"]
+         /\ derived = [c \in CfgNames |-> <<>>] /\ dpc = [i \in Procs |-> "idle"] /\ dk = [i \in Procs |-> 0]
 TraceInit == Blank /\ l = 1
 
 InputOf(e) == [c |-> e.c, lv |-> e.lv, fam |-> e.fam, gen |-> "known", seed |-> [w |-> e.w, id |-> e.id, h |-> e.h]]
@@ -29,7 +30,7 @@ Field(e, x) == IF e.w < 0 THEN "input"
 TraceReset == /\ l <= Len(TraceLog) /\ TraceLog[l].a = "Reset"
               /\ inp' = [i \in Procs |-> Dummy] /\ pc' = [i \in Procs |-> "start"] /\ res' = [i \in Procs |-> None]
               /\ obs' = [a |-> "Init"] /\ l' = l + 1
-              /\ UNCHANGED <<grp, rng, lrng>>
+              /\ UNCHANGED <<grp, rng, lrng, derived, dpc, dk>>
 TraceStep == /\ l <= Len(TraceLog) /\ TraceLog[l].a = "Select"
              /\ LET e == TraceLog[l]
                     i == IF e.w < 0 THEN Dummy ELSE InputOf(e)
@@ -43,7 +44,7 @@ TraceStep == /\ l <= Len(TraceLog) /\ TraceLog[l].a = "Select"
                     /\ obs' = [a |-> "Select", i |-> 1, inp |-> i, res |-> seen]
                     /\ IF f = "" THEN TRUE ELSE PrintT(<<"TRACE_BAD", l, f>>)
              /\ l' = l + 1
-             /\ UNCHANGED <<grp, rng, lrng>>
+             /\ UNCHANGED <<grp, rng, lrng, derived, dpc, dk>>
 TraceNext == TraceReset \/ TraceStep
 TraceSpec == TraceInit /\ [][TraceNext]_tvars
 TraceView == <<view, l>>
